@@ -24,6 +24,10 @@ var solvers = []solver{
 	}},
 }
 
+// useOldZ3: z3 4.8.12 answered `unsat` on satisfiable quantified queries (DESIGN 11.6 E12), so it
+// takes no part in deciding obligations unless VERIF_OLDZ3=1 asks for it (experiments only).
+var useOldZ3 = os.Getenv("VERIF_OLDZ3") == "1"
+
 type solveResult struct {
 	result  string // unsat, sat, unknown
 	backend string
@@ -68,7 +72,7 @@ func runSolversV(files []string, timeoutS int, all bool, skipCvc5 bool) solveRes
 			if skipCvc5 && s.name == "cvc5" {
 				continue
 			}
-			if vi > 0 && s.name == "z3" {
+			if s.name == "z3" && (vi > 0 || !useOldZ3) {
 				continue // variants: newest z3 and cvc5 only
 			}
 			if vi == 2 && s.name == "cvc5" {
